@@ -7,7 +7,7 @@ HOOK_COMMITS = ["00a6da5", "138be5b", "b138b83", "c88384f", "12acee3"]
 
 CHECKS = {
  "C01": dict(engine="seqx", technique="explicit-state BFS over operation histories on the real store vs reference model (bounded exhaustive)",
-   text="All Raft-legal histories up to the depth bound over a state-relative alphabet (22 symbols) are executed on the real store under 8 chunk configurations; every call result, log_state(), every read range and the chunk list are compared with a plain reference log, and API observations are compared across configurations. Exhaustive within the bound; the bound and every cap are reported.",
+   text="All Raft-legal histories up to the depth bound over a state-relative alphabet (22 symbols) are executed on the real store under 8 chunk configurations; every call result, log_state(), every read range and the chunk list are compared with a plain reference log, and API observations are compared across configurations. Beyond the depth bound: periodic histories (every pattern of 1-2, thorough 3, symbols repeated up to 12 times) and scale phases (bulk appends of 40/130 entries: dozens of rotations and removals). Exhaustive within the bound; the bound and every cap are reported.",
    note="eager worker (wait_worker_idle after each op); types fixed to VT; reference model trusted; depth bound", ref="5 C01"),
  "C02": dict(engine="seqx", technique="explicit-state BFS over histories with restart transitions (bounded exhaustive)",
    text="Same search with Reopen(cfg') as a transition at every position (flush, ack, idle, drop, open under different chunk/cache/read-buffer limits): state, every entry, dump text and file set must be unchanged by the restart, a standalone Dump of the closed directory must write the same text as the live store's dump, and the search continues from the restarted store so later writes are checked against the model too.",
@@ -48,7 +48,7 @@ CHECKS["C05"] = dict(engine="schedx", technique="same exploration as C03; oracle
    text="Same schedules, crash points and crash images as C03; every image must open (no Err, no panic), then vote+append+flush must be acknowledged, reads must match and a further restart must succeed. Refusals caused by an unfinished rotation (F5) are a recorded known finding whose class is computed from the image alone; any other refusal or panic is a violation.",
    note=SCHED_NOTE, ref="5 C05")
 CHECKS["C04"] = dict(engine="schedx", technique="stateless DFS over all schedules x deviation-bounded fault injection (EIO, EINTR, short write) at worker write/fdatasync; trace oracle at every callback",
-   text="For every history and schedule, and for every placement of up to the fault bound of injected failures at the worker's write/fdatasync calls, the libc-level trace is checked at every callback: Ok implies every record (and head snapshot) journalled before that flush is written at its predicted place and covered by a later successful sync of that same file; callbacks fire at most once, exactly once without faults, in request order; absorbed deviations (EINTR, short write) must leave behaviour unchanged.",
+   text="For every history and schedule, and for every placement of up to the fault bound of injected failures at the worker's write/fdatasync calls, the libc-level trace is checked at every callback: Ok implies every record (and head snapshot) journalled before that flush is written at its predicted place and covered by a later successful sync of that same file; callbacks fire at most once, exactly once without faults, in request order; absorbed deviations (EINTR, short write) must leave behaviour unchanged. Plus a long-queue probe (300 / 1100 write+flush pairs queued before the worker runs, one schedule) and write requests above 1 MiB.",
    note=SCHED_NOTE + "; a later successful fdatasync is taken to cover all bytes written before it", ref="5 C04")
 CHECKS["C07"] = dict(engine="schedx", technique="stateless DFS over all schedules under small cache limits; every read compared with the reference model",
    text="Histories with reads (range reads, per-index reads and snapshot iteration) at arbitrary points are run under every schedule of caller and worker for cache limits incl. 0 items / 0 bytes; every read must return exactly the model's live entries without error however far the worker has got (buffered, queued, written, synced, evicted, drained). Plus: lock-window mode (reads scheduled while the worker holds the cache write lock); a reader harness (two reader threads + a drainer on a shared store, all interleavings with the worker, incl. entries above 64 KiB); snapshots taken early and iterated late; an eager-worker explicit-state phase over the full legal alphabet (batches, 40 000-byte entries) under small caches.",
